@@ -866,6 +866,31 @@ class Check(PropCheck):
                 return ('links', 're-pickled copy: %s' % lp)
             if shared_objects(src, z):
                 return ('shared', 're-pickled copy shares a %s with its source' % shared_objects(src, z))
+        # second generation after the source changed: a style assigned as a string on the original, pickle, the original's
+        # style edited in place, then the *copy* is re-pickled and its element cloned — the copy must not have learnt
+        # anything from the original since it was made (process-wide state keyed by attribute text would show here)
+        x4 = build_holder(d)
+        es4 = elems(root_of(x4))
+        if es4:
+            k4 = e['at'] % len(es4)
+            Check._style_serial += 1
+            s4 = ('color: c%d; width: %dpx' % (Check._style_serial, e['at'])) if e['at'] % 2 else 'color: blue; width: 5px'
+            es4[k4].style = s4
+            y4 = pickle.loads(pickle.dumps(x4, d['proto']))
+            vy4 = public_view(y4)
+            es4[k4].style.color = 'edited-later'
+            es4[k4].setStyle('width', '')
+            if public_view(y4) != vy4:
+                return ('not-independent', 'a later style edit on the original shows in the copy')
+            z4 = pickle.loads(pickle.dumps(y4, (d['proto'] + 1) % 6))
+            if public_view(z4) != vy4:
+                return ('repickle-unfaithful', 'the copy of a copy differs from the copy after the original was edited: %s'
+                        % first_diff(vy4, public_view(z4)))
+            b4 = elems(root_of(y4))[k4]
+            for how, c4 in (('cloneNode', b4.cloneNode()), ('copy', copy.copy(b4)), ('deepcopy', copy.deepcopy(b4))):
+                if not c4.isTagEqual(b4) or c4.getAttribute('style') != b4.getAttribute('style'):
+                    return ('clone-unfaithful', '%s of an element of the copy is not tag-equal to it (style %r vs %r)'
+                            % (how, c4.getAttribute('style'), b4.getAttribute('style')))
         # the parsers stay usable
         if parser:
             for who, h in (('original', x), ('copy', y), ('another copy', copies[(d['proto'] + 1) % 6])):
@@ -877,6 +902,8 @@ class Check(PropCheck):
         if r:
             return r
         return late
+
+    _style_serial = 0
 
     @staticmethod
     def _strip_uids(v):
